@@ -27,7 +27,9 @@ N_SCHEMAS = {'quick': 640, 'thorough': 12000}
 def build(schema):
     L.cache_lark()
     from ndn.app_support.light_versec import compile_lvs, Checker
-    return Checker(compile_lvs(L.render(schema)), L.lib_fns())
+    ck = Checker(L.compile_reused(L.render(schema)), L.lib_fns())
+    L.build_decoy(ck)
+    return ck
 
 
 # ------------------------------------------------------------------------------------------------- contracts
